@@ -146,7 +146,11 @@ Definition step := (hop * list N * list N)%type.
 Definition mkstep (o : hop) (sel0 sel1 : list N) : step := (o, sel0, sel1).
 
 Inductive case :=
-  CHist (vertical : bool) (G : list (N * ometa)) (init : list (N * list sample)) (sel0 sel1 : list N)
+| CHist (vertical : bool) (G : list (N * ometa)) (init : list (N * list sample)) (sel0 sel1 : list N)
+        (steps : list step) (quiescent : bool)
+  (* replicated streams compacted with deduplication (replica label removed by the compactor,
+     penalty merge): exact = the replicas carry identical samples *)
+| CHistD (exact : bool) (G : list (N * ometa)) (init : list (N * list sample)) (sel0 sel1 : list N)
         (steps : list step) (quiescent : bool).
 
 Definition init_state (G : list (N * ometa)) (init : list (N * list sample)) : state :=
@@ -167,6 +171,34 @@ Definition sg_select (st : state) (hide : bool) : list N :=
   map fst (filter (fun p => negb (C31.hidden l (to31 p))) e).
 
 Definition sel_eq (a b : list N) : bool := seteq N.eqb a b.
+
+(* ---- deduplicating compaction of replicated streams: the result is a subset of the parents'
+   samples that keeps every series (penalty deduplication picks one replica at a time); its
+   compaction group (labels without the replica label) differs from the parents' ---- *)
+Definition series_of (s : sample) : N := fst (fst s).
+
+Definition hop_ok_dd (st : state) (o : hop) : bool :=
+  match o with
+  | HAdd id b =>
+      negb (has st id)
+      && match parents_of st (cb_parents b) with
+         | None => false
+         | Some ps =>
+             match ps with [] => false | _ => true end
+             && seteq N.eqb (cb_sources b) (List.concat (map m_sources ps))
+             && subS (cb_samples b) (List.concat (map m_samples ps))
+             && forallb (fun s => existsb (fun s' => N.eqb (series_of s') (series_of s)) (cb_samples b))
+                        (List.concat (map m_samples ps))
+             && nodup sample_eqb (cb_samples b)
+         end
+  | _ => hop_ok st o
+  end.
+
+Fixpoint legal_dd (st : state) (l : list hop) : bool :=
+  match l with
+  | [] => true
+  | o :: r => hop_ok_dd st o && legal_dd (apply_hop st o) r
+  end.
 
 Fixpoint legal (st : state) (l : list hop) : bool :=
   match l with
@@ -192,6 +224,11 @@ Definition corr_ok (c : case) : bool :=
       && legal (init_state G init) (map (fun s => fst (fst s)) steps)
       (* the samples of an original block lie in its time range *)
       && forallb (fun p => forallb (in_range (omint (ometa_of G (fst p))) (omaxt (ometa_of G (fst p)))) (snd p)) init
+      && sel_eq s0 (sg_select (init_state G init) true) && sel_eq s1 (sg_select (init_state G init) false)
+      && sel_steps (init_state G init) steps
+  | CHistD _ G init s0 s1 steps _ =>
+      order_ok && nodup N.eqb (map fst init) && forallb (fun p => nodup sample_eqb (snd p)) init
+      && legal_dd (init_state G init) (map (fun s => fst (fst s)) steps)
       && sel_eq s0 (sg_select (init_state G init) true) && sel_eq s1 (sg_select (init_state G init) false)
       && sel_steps (init_state G init) steps
   end.
@@ -257,6 +294,7 @@ Definition cover_all (c : case) : bool :=
       cover_ok (init_state G init) true s0 && cover_ok (init_state G init) false s1
       && antichain_ok (init_state G init) s0 && antichain_ok (init_state G init) s1
       && cover_steps (init_state G init) steps
+  | CHistD _ _ _ _ _ _ _ => true
   end.
 
 Definition served_all (c : case) : bool :=
@@ -264,6 +302,7 @@ Definition served_all (c : case) : bool :=
   | CHist _ G init s0 s1 steps _ =>
       served_ok init (init_state G init) s0 && served_ok init (init_state G init) s1
       && served_steps init (init_state G init) steps
+  | CHistD _ _ _ _ _ _ _ => true
   end.
 
 (* once compaction has finished every sample is served exactly once *)
@@ -275,6 +314,7 @@ Definition once_ok (c : case) : bool :=
         | (st, f0, f1) => nodup sample_eqb (served_list st f0) && nodup sample_eqb (served_list st f1)
         end
       else true
+  | CHistD _ _ _ _ _ _ _ => true
   end.
 
 (* compaction has finished (also vertical compaction): no two selected blocks of one
@@ -296,6 +336,7 @@ Definition quiet_all (c : case) : bool :=
         | (st, f0, f1) => quiet_ok st f0 && quiet_ok st f1
         end
       else true
+  | CHistD _ _ _ _ _ _ _ => true
   end.
 
 (* original blocks of different compaction groups (different external labels) share no sample *)
@@ -310,4 +351,48 @@ Fixpoint orig_disjoint_b (init : list (N * list sample)) : bool :=
   | p :: r => forallb (fun q => disjoint sample_eqb (snd p) (snd q)) r && orig_disjoint_b r
   end.
 
-Definition pred_ok (c : case) : bool := cover_all c && served_all c && quiet_all c && once_ok c.
+(* ---- replicated streams: nothing is invented, no series disappears ---- *)
+Definition dd_ok (init : list (N * list sample)) (st : state) (sel : list N) : bool :=
+  forallb (fun p => forallb (fun s =>
+     existsb (fun id => match find st id with
+                        | Some b => existsb (fun s' => N.eqb (series_of s') (series_of s)) (m_samples b)
+                        | None => false end) sel) (snd p)) init
+  && forallb (fun id => match find st id with
+                        | Some b => forallb (fun s => existsb (fun p => memS s (snd p)) init) (m_samples b)
+                        | None => false end) sel.
+
+Fixpoint dd_steps (init : list (N * list sample)) (st : state) (l : list step) : bool :=
+  match l with
+  | [] => true
+  | (o, s0, s1) :: r =>
+      let st' := apply_hop st o in
+      dd_ok init st' s0 && dd_ok init st' s1 && dd_steps init st' r
+  end.
+
+(* identical replicas: every compaction result holds exactly the parents' samples *)
+Fixpoint exact_steps (st : state) (l : list step) : bool :=
+  match l with
+  | [] => true
+  | (o, _, _) :: r =>
+      (match o with
+       | HAdd _ b => match parents_of st (cb_parents b) with
+                     | Some ps => seteq sample_eqb (cb_samples b) (List.concat (map m_samples ps))
+                     | None => false end
+       | _ => true end) && exact_steps (apply_hop st o) r
+  end.
+
+Definition dd_all (c : case) : bool :=
+  match c with
+  | CHist _ _ _ _ _ _ _ => true
+  | CHistD _ G init s0 s1 steps _ =>
+      dd_ok init (init_state G init) s0 && dd_ok init (init_state G init) s1 && dd_steps init (init_state G init) steps
+  end.
+
+Definition exact_all (c : case) : bool :=
+  match c with
+  | CHistD true G init _ _ steps _ => exact_steps (init_state G init) steps
+  | _ => true
+  end.
+
+Definition pred_ok (c : case) : bool :=
+  cover_all c && served_all c && quiet_all c && once_ok c && dd_all c && exact_all c.
